@@ -113,4 +113,37 @@ func init() {
 		Functions: []string{"outputstream.(*OutputStream).GetNext", "Get", "Add", "Delete", "InterruptGetNext", "getUnlocked"},
 		Rule:      "one case per (initial batches, compacted prefix, environment program, yield point placement); non-trivial when the reader returns or parks and the oracle is evaluated",
 	})
+
+	registerCheck(&CheckDef{
+		ID: "C07",
+		Runs: func(tier string) []HarnessRun {
+			tp := map[string]int{"S": 2, "C": 1, "L": 4}
+			if tier == "thorough" {
+				tp = map[string]int{"S": 3, "C": 2, "L": 6, "link": 1, "P": 1}
+			}
+			return []HarnessRun{
+				{Name: "mark", Pkg: "", PkgName: "main", Files: []string{"main/c07.go"}, SymFiles: []string{"main/tmp_sym.go"}, NatFiles: []string{"main/tmp_native.go"},
+					Entry: "verifHarness_C07_mark", Unwind: 8,
+					Redirect:      map[string]string{"(*" + repoMod + ".FSM).applyRobustMessage": "verifStub_applyRobustMessage"},
+					NativePatches: []NativePatch{{Module: "github.com/stapelberg/glog", File: "glog.go", Old: "os.Exit(255)", New: "panic(\"verif-process-exit\")"}}},
+				{Name: "replay", Pkg: "internal/ircserver", PkgName: "ircserver", Files: ircFiles, SymFiles: ircSym, NatFiles: ircNat,
+					Entry: "verifHarness_C07_replay", Params: tp, Unwind: 8, Solver: "z3-new"},
+			}
+		},
+		Assumptions: []string{
+			"the state machine step is replaced by a stub that may panic for every entry type except MessageOfDeath (that branch is covered by the replay run)",
+			"raftstore over the LevelDB model; protobuf/JSON as abstract codec",
+			"glog.Fatalf terminates the process (observed as an exit event); real process exit, restart and raft's replay of the durable log are outside",
+		},
+		Bounds:    func(tier string) map[string]interface{} { return map[string]interface{}{"entries": 1, "template": "see C14"} },
+		Outside:   []string{"process restart and replay from the durable log by hashicorp/raft", "interplay with real snapshots (see C02)"},
+		Functions: []string{"main.(*FSM).applyProto", "raftstore.(*LevelDBStore).StoreLogProto", "robust.(*Message).ProtoMessage", "robust.NewMessageFromBytes", "ircserver.(*IRCServer).UpdateLastClientMessageID"},
+		Rule:      "cases: (panic?, encoding) for the marking half; one case for the replay half; non-trivial when the exit observer or the final assertions are reached",
+	})
 }
+
+var (
+	ircFiles = []string{"ircserver/tpl.go", "ircserver/step.go", "ircserver/oracles.go"}
+	ircSym   = []string{"ircserver/api_sym.go"}
+	ircNat   = []string{"ircserver/api_native.go"}
+)
